@@ -804,9 +804,11 @@ class StepResult(Generic[TSimulatorState], metaclass=abc.ABCMeta):
             cmap = gate.confusion_map
             for i, q in enumerate(op.qubits):
                 out[:, i] = indexed_sample[:, qubits_to_index[q]]
+            # The confusion map is applied before the invert mask (see `cirq.MeasurementGate`).
+            self._confuse_results(out, op.qubits, cmap, seed)
+            for i in range(len(op.qubits)):
                 if inv_mask[i]:
                     out[:, i] ^= out[:, i] < 2
-            self._confuse_results(out, op.qubits, cmap, seed)
             if _allow_repeated:
                 if key not in results:
                     results[key] = []
